@@ -292,30 +292,33 @@ def qualifierText (reg : Registry) (name value : Bytes) : Bytes :=
 def qualifierFmt (reg : Registry) (pre name value : Bytes) : Bytes :=
   pre ++ addPrefix pre (qualifierText reg name value)
 
-/-- `Props.Index(key)`; `none` also when an empty row is met first (Go panics there; see
-`propsOk`) -/
+/-- `Props.Get(key)`: the values of the FIRST row of that name; `[]` also when an empty row is met
+first (Go panics there; see `propsOk`).  Not used by the writer any more (repo 7b61a9a). -/
 def propsGet (ps : List (List Bytes)) (key : Bytes) : List Bytes :=
   match ps.find? fun row => row.head? = some key with
   | some row => row.tail
   | none => []
 
-/-- every row has a name (`props[i][0]`) -/
+/-- every row has a name (`prop[0]`, `prop[1:]`) -/
 def propsOk (ps : List (List Bytes)) : Bool := ps.all fun row => !row.isEmpty
 
-/-- the `(key, value)` items in the order `INSDCFormatter` writes them: for every row's name,
-all values of the FIRST row with that name -/
+/-- the `(key, value)` items in the order `INSDCFormatter` (and `Props.Items`) writes them since repo
+7b61a9a: row by row, every value of the row under the row's own name
+(`for _, prop := range f.Props { for _, value := range prop[1:] { QualifierIO{prop[0], value} } }`).
+Before the repair the rows' names were looked up with `Props.Get`, which returns the first row of
+that name: a repeated name wrote the first row's values twice and lost the later row's (F31). -/
 def propsItems (ps : List (List Bytes)) : List (Bytes × Bytes) :=
   ps.flatMap fun row =>
     match row with
     | [] => []
-    | key :: _ => (propsGet ps key).map fun v => (key, v)
+    | key :: vs => vs.map fun v => (key, v)
 
 /-- the location column of the table: 21, or wider when a key does not fit in front of it — the
 whole table is then laid out with the wider column (repo e050333) -/
 def tableDepth (fs : List QFeature) : Nat := fs.foldl (fun d f => max d (5 + f.key.length + 1)) 21
 
 /-- one feature: key line and qualifier lines (no trailing line feed) for the location column
-`depth`; `Props.Keys` panics on a row without a name -/
+`depth`; `prop[0]` / `prop[1:]` panic on a row without a name -/
 def featureText (reg : Registry) (depth : Nat) (f : QFeature) : Out Bytes :=
   if !propsOk f.props then .error .panic
   else
